@@ -228,6 +228,11 @@ var helperKinds = []string{"func", "type", "var", "const", "method"}
 func (c *Conc) helperText(tok, rfile string) (name string, decls []string) {
 	name = "helper" + pUcFirst(tok) + pUcFirst(rfile)
 	kind := helperKinds[pick(c.Seed, len(helperKinds), "helper", tok, rfile)]
+	if tok == "hr" {
+		// a helper method the user hung on the ROOT resolver struct (next to the resolvers that call it)
+		recv := []string{"r *Resolver", "r Resolver", "_ *Resolver"}[pick(c.Seed, 3, "hrrecv", rfile)]
+		return name, []string{fmt.Sprintf("func (%s) %s(x int) (n int, s string) {\n\tif x > 0 {\n\t\treturn x, \"}\"\n\t}\n\treturn 0, \"{\" + `\"`\n}", recv, name)}
+	}
 	cmt := strings.HasSuffix(tok, "c")
 	k := func(s string) string {
 		if cmt {
